@@ -214,9 +214,15 @@ def r07_4(ctx) -> None:
     c = ctx.unit("_core.borrow")
     rets = [n for n in own_nodes(c.node) if isinstance(n, ast.Return)]
     p = c.param_names()[0]
-    ok = len(rets) == 1 and isinstance(rets[0].value, ast.GeneratorExp) and len(rets[0].value.generators) == 1 \
-        and rets[0].value.generators[0].is_async and norm(rets[0].value.generators[0].iter) == p \
-        and isinstance(rets[0].value.elt, ast.Name) and not rets[0].value.generators[0].ifs
+    gen = rets[0].value if len(rets) == 1 else None
+    if isinstance(gen, ast.Name):
+        ccfg = cfg_of(c)
+        rnodes = [n for n in ccfg.nodes if n.kind == "return" and not n.tag]
+        from .common import name_value
+        gen = name_value(ctx, c, ccfg, rnodes[0], gen.id) if rnodes else None
+    ok = len(rets) == 1 and isinstance(gen, ast.GeneratorExp) and len(gen.generators) == 1 \
+        and gen.generators[0].is_async and norm(gen.generators[0].iter) == p \
+        and isinstance(gen.elt, ast.Name) and not gen.generators[0].ifs
     ctx.check(ok, "R07.4", c, rets[0] if rets else "borrow",
               "the internal borrow returns a new generator whose only use of the source is iterating it")
     names = [x.id for x in own_nodes(c.node) if isinstance(x, ast.Name) and x.id == p]
